@@ -181,20 +181,25 @@ theorem runScript_ok (self : Nat) : ∀ (acts : List Act) (st : St), WF st →
       have h2 := ih _ h1.1.1
       exact ⟨by simpa [runScript] using h1.1.trans h2.1, by simpa [runScript] using h1.2.trans h2.2⟩
 
-/-- the callback of `(id, r)` runs (its script may issue and cancel lookups, its own included),
-then every entry of key `id` is erased: `r.serial` is dead afterwards, dead serials stay dead -/
+/-- the lookup `(id, r)` is erased, then its callback runs (its script may issue and cancel
+lookups): `r.serial` is dead from the erase on, dead serials stay dead -/
 theorem finish_ok {st : St} {id : Nat} {r : Req} (res : Result) (h : WF st) (hf : find st.reqs id = some r) :
     StepOK st (finish st id r res).1 (finish st id r res).2 := by
   have hm := find_mem hf
-  obtain ⟨hs, hx⟩ := runScript_ok id r.script st h
-  unfold finish
-  generalize runScript id st r.script = rs at hs hx
-  obtain ⟨st1, outs⟩ := rs
-  simp only at hs hx ⊢
   have hnd : ¬ Dead st r.serial := fun hd => hd.2 _ hm rfl
-  refine ⟨wf_erase_wf id hs.1 rfl rfl, ?_, by simp, ?_⟩
+  generalize hst0 : ({ st with reqs := erase st.reqs id, called := st.called ++ [r.serial] } : St) = st0
+  have hr : st0.reqs = erase st.reqs id := by rw [← hst0]
+  have hn : st0.nextSerial = st.nextSerial := by rw [← hst0]
+  have w0 : WF st0 := wf_erase_wf id h hr hn
+  have d0 : Dead st0 r.serial := erase_dead h hm hr hn
+  obtain ⟨hs, _⟩ := runScript_ok id r.script st0 w0
+  have hfin : finish st id r res = ((runScript id st0 r.script).1,
+      [⟨r.serial, res, (runScript id st0 r.script).2, st.now - r.born⟩]) := by
+    rw [← hst0]; rfl
+  rw [hfin]
+  refine ⟨hs.1, ?_, by simp, ?_⟩
   · intro s hd
-    refine ⟨by apply wf_erase_dead id hs.1 ?_ ?_ (hs.2.1 s hd).1 <;> rfl, ?_⟩
+    refine ⟨(hs.2.1 s (wf_erase_dead id h hr hn hd)).1, ?_⟩
     intro e he
     simp only [List.mem_singleton] at he
     subst he
@@ -204,17 +209,7 @@ theorem finish_ok {st : St} {id : Nat} {r : Req} (res : Result) (h : WF st) (hf 
   · intro e he
     simp only [List.mem_singleton] at he
     subst he
-    refine ⟨⟨?_, ?_⟩, hnd⟩
-    · show r.serial < st1.nextSerial
-      exact Nat.lt_of_lt_of_le (h.2 _ hm) hx.1
-    · intro e he heq
-      obtain ⟨hmem, hne⟩ := mem_erase he
-      rcases hx.2 e hmem with h1 | h1
-      · have : e = (id, r) := serial_inj st.reqs h.1 h1 hm heq
-        exact hne (by rw [this])
-      · have hlt : r.serial < st.nextSerial := h.2 _ hm
-        have heq' : e.2.serial = r.serial := heq
-        omega
+    exact ⟨(hs.2.1 _ d0).1, hnd⟩
 
 theorem bump_serials (reqs : List (Nat × Req)) (id : Nat) :
     (reqs.map fun e => if e.1 == id then (e.1, { e.2 with responseCount := e.2.responseCount + 1 }) else e).map
